@@ -262,7 +262,7 @@ func parseHeaders(doc string) map[string]string {
 }
 
 func parseKV(str string) map[string]string {
-	regKV := regexp.MustCompile(`{([\w|-]+)\W*:\W*([^}]+)}`)
+	regKV := regexp.MustCompile(`{([\w|-]+)\W*:\s*([^}]+)}`)
 	kvLst := regKV.FindAllStringSubmatch(str, -1)
 	if len(kvLst) == 0 {
 		return nil
